@@ -73,6 +73,7 @@ func newSideState() *sideState {
 type world struct {
 	poolMode int // 0 fresh, 1 LIFO reuse, 2 solver/engine choice
 	now      int64
+	timers   []*pendingTimer // AfterFunc timers (fired only by vxFireTimers)
 	counters map[string]int
 	fmtRecs  []fmtRec
 	aesRecs  []aesRec
@@ -424,10 +425,21 @@ func init() {
 		"time.NewTimer":         func(fr *frame, a []value) value { return newTimerLike(fr) },
 		"(*time.Ticker).Stop":   extNop,
 		"(*time.Ticker).Reset":  extNop,
-		"(*time.Timer).Stop":    func(fr *frame, a []value) value { return true },
+		"(*time.Timer).Stop": func(fr *frame, a []value) value {
+			for _, t := range fr.i.world.timers {
+				if t.cell == a[0] && !t.fired {
+					t.stopped = true
+				}
+			}
+			return true
+		},
 		"(*time.Timer).Reset":   func(fr *frame, a []value) value { return true },
 		"time.After":            func(fr *frame, a []value) value { return &vchan{cap: 1, elem: nil, epoch: fr.i.epoch} },
-		"time.AfterFunc":        func(fr *frame, a []value) value { return newTimerLike(fr) },
+		"time.AfterFunc": func(fr *frame, a []value) value {
+			t := newTimerLike(fr)
+			fr.i.world.timers = append(fr.i.world.timers, &pendingTimer{cell: t, fn: a[1]})
+			return t
+		},
 		"github.com/henrylee2cn/goutil/coarsetime.FloorTimeNow":   extTimeNow,
 		"github.com/henrylee2cn/goutil/coarsetime.CeilingTimeNow": extTimeNow,
 
@@ -760,6 +772,25 @@ func extPoolGet(fr *frame, args []value) value {
 func extPoolPut(fr *frame, args []value) value {
 	i := fr.i
 	p := args[0].(*value)
+	// Handing an object to a pool gives it to its next user, who reinitialises it:
+	// for the race analysis the Put counts as a write to the object's fields, so
+	// that an access by another goroutine that is not ordered before the Put (a
+	// reference kept past the release) is reported.
+	if i.race != nil && i.race.on {
+		if it, ok := args[1].(iface); ok {
+			if cell, ok := it.v.(*value); ok && cell != nil {
+				if st, ok := (*cell).(structure); ok {
+					for k := range st {
+						switch st[k].(type) {
+						case structure, array:
+						default:
+							i.raceAccess(&st[k], true, false)
+						}
+					}
+				}
+			}
+		}
+	}
 	i.raceRelease(poolKey{p}, true)
 	if it, ok := args[1].(iface); ok && it.t == nil {
 		return nil
@@ -963,6 +994,14 @@ func extAtomicCAS(fr *frame, args []value) value {
 
 // newTimerLike builds a *time.Timer / *time.Ticker whose channel never fires
 // (timers never expire in the model; stub S-TIME).
+// pendingTimer is a time.AfterFunc timer. Timers never fire by themselves (S-TIME);
+// a harness lets "enough time pass for every pending timer" with vxFireTimers.
+type pendingTimer struct {
+	cell           value
+	fn             value
+	stopped, fired bool
+}
+
 func newTimerLike(fr *frame) value {
 	pt := fr.fn.Signature.Results().At(0).Type().Underlying().(*types.Pointer)
 	st := zero(pt.Elem()).(structure)
